@@ -316,6 +316,16 @@ class Sym:
             if l is None or r is None:
                 return same if isinstance(test.ops[0], ast.Is) else (not same)
             return None
+        if isinstance(test, ast.Compare) and len(test.ops) == 1 and isinstance(test.ops[0], (ast.Eq, ast.NotEq)) \
+                and isinstance(test.left, (ast.Compare, ast.BoolOp, ast.UnaryOp)) and isinstance(test.comparators[0], (ast.Compare, ast.BoolOp, ast.UnaryOp)):
+            # two truth values compared: (a is None) != (b is None)
+            lv = self.static_truth(test.left, env, func, depth)
+            rv = self.static_truth(test.comparators[0], env, func, depth)
+            if lv is None or rv is None:
+                return None
+            return (lv == rv) if isinstance(test.ops[0], ast.Eq) else (lv != rv)
+        if isinstance(test, ast.Name) and test.id in env and isinstance(env[test.id], bool):
+            return env[test.id]
         if isinstance(test, ast.Compare) and len(test.ops) == 1 and isinstance(test.ops[0], (ast.Eq, ast.NotEq)):
             try:
                 l = self.expr(test.left, env, func, depth)
